@@ -19,3 +19,19 @@ Theorem C03_complement : forall (Q : Type) (E : EqDec Q) (A : enfa Q) (w : list 
   (Lang (complement A) w <-> ~ Lang A w).
 Proof. intros Q E A w D W. exact (complement_spec A D W w). Qed.
 Print Assumptions C03_complement.
+
+(* reference constructions for union / concatenation / star of automata: pyformlang computes these through
+   to_regex and the regex combinators; its results are compared with these constructions by the exact equivalence check *)
+From PFL Require Import Spec.Regex Model.RegexFA Proofs.RegexFA.
+Theorem C03_union_ref : forall (Q1 Q2 : Type) (A : enfa Q1) (B : enfa Q2) (w : list N),
+  Lang (fa_union A B) w <-> Lang A w \/ Lang B w.
+Proof. exact (@fa_union_lang). Qed.
+Print Assumptions C03_union_ref.
+Theorem C03_concat_ref : forall (Q1 Q2 : Type) (A : enfa Q1) (B : enfa Q2) (w : list N),
+  Lang (fa_concat A B) w <-> exists u v, w = u ++ v /\ Lang A u /\ Lang B v.
+Proof. exact (@fa_concat_lang). Qed.
+Print Assumptions C03_concat_ref.
+Theorem C03_star_ref : forall (Q : Type) (A : enfa Q) (w : list N),
+  Lang (fa_star A) w <-> lstar (Lang A) w.
+Proof. exact (@fa_star_lang). Qed.
+Print Assumptions C03_star_ref.
